@@ -15,7 +15,7 @@ PROP = {
             "optional --config file outside the workspace, severity remaps / disabled codes in .emmyrc.json) x (format in text/json/json-file/sarif/"
             "sarif-file) x (--severity none/error/warn/info/hint) x (--warnings-as-errors on/off), each run repeated; distinct = FNV(workspace, flags); "
             "non-trivial = the reference has >= 2 diagnostics",
-    "min_nontrivial": {"quick": 60, "thorough": 3000},
+    "min_nontrivial": {"quick": 40, "thorough": 2000},
     "max_secs": {"quick": 60, "thorough": 1000},
     "require_clauses": ["exit-status", "severity-filter", "warnings-as-errors", "format:text", "format:json", "format:sarif", "format:json-file", "format:sarif-file"],
     "assumptions": COMMON_ASSUME + [
